@@ -2,6 +2,7 @@
 From Coq Require Import List Arith ZArith Lia Bool Permutation.
 Import ListNotations.
 Require Import R.AssocList R.MapRec R.MRProofs1 R.MRProofs2 R.MRProofs3 R.SortedMap R.DModel3 R.DProofs4 R.DProofs6.
+Require Import R.DSetters.
 
 Section P7.
 Variables (oscript udiff_t mdiff_t: Type).
@@ -25,19 +26,11 @@ Notation diff_f := (DModel3.diff_f oscript udiff_t mdiff_t odiff udiff mdiff ite
 Notation apply_fs := (DModel3.apply_fs oscript udiff_t mdiff_t oapply uapply mapply iter_order).
 Notation apply_f := (DModel3.apply_f oscript udiff_t mdiff_t oapply uapply mapply iter_order).
 Notation has_field := (DProofs6.has_field oscript udiff_t mdiff_t).
-Notation dflt := DProofs6.dflt.
+Notation dflt := DSetters.dflt.
 
-Fixpoint set_nth (i: nat) (v: value) (xs: list value) : list value :=
-  match xs, i with [], _ => [] | _ :: r, 0 => v :: r | x :: r, S i' => x :: set_nth i' v r end.
-
-(* the setter for field i: assign, and return what the field's diff strategy reports from old to new *)
-Definition setter (fs: fields) (xs: list value) (i: nat) (v: value) : list value * list entry :=
-  (set_nth i v xs, diff_f (strat_at fs i) i (nth i xs dflt) v).
-Fixpoint run (fs: fields) (ops: list (nat * value)) (xs: list value) : list value * list entry :=
-  match ops with
-  | [] => (xs, [])
-  | (i, v) :: ops' => let '(xs1, e1) := setter fs xs i v in let '(xs2, e2) := run fs ops' xs1 in (xs2, e1 ++ e2)
-  end.
+Notation set_nth := DSetters.set_nth.
+Notation setter := (DSetters.setter oscript udiff_t mdiff_t odiff udiff mdiff iter_order).
+Notation run := (DSetters.run oscript udiff_t mdiff_t odiff udiff mdiff iter_order).
 Fixpoint ops_ok (fs: fields) (n: nat) (ops: list (nat * value)) : Prop :=
   match ops with [] => True | (i, v) :: ops' => i < n /\ wt_f (strat_at fs i) v /\ ops_ok fs n ops' end.
 
